@@ -16,7 +16,7 @@ LEVEL_TEXT = ('partial. Lean 4 theorems (exact arithmetic): rescaling by s divid
               'interpolation grid is uniform with spacing 1/s and maps centre to centre; at s = 1 every output sample is interpolated at its own '
               'integer coordinate, so the operation is the identity for any interpolator reproducing samples there; a constant aperture keeps its '
               'power up to the one-sample rim (n0 n1 a^2 <= P\' <= (n0+1/s)(n1+1/s) a^2) because the amplitude is divided by s; the mask values stay 0/1 '
-              'and the segment count is kept; under nearest-sample resampling disjoint segments stay disjoint and their union is the resampled union; s then 1/s returns pixel scale and (for integer n*s) shape; the grid of util.rescale is REGENERATED from the source (each axis centred and sized with its own lengths); the original is untouched (regenerated effect table). Compared with the code on every case: shapes, '
+              'and the segment count is kept; under nearest-sample resampling on the regenerated grid (order 0, mode constant) disjoint segments stay disjoint on the whole output grid, their union is the resampled union at samples whose coordinate lies inside the input array, and on the rim beyond the first/last input sample every segment is zero (a border-filling mask loses its trailing rim: all-ones 5x5 at s = 2 keeps 81 of 100); a plane rescaled by 1 keeps pixel scale, factors, shape and samples every array at its own integer coordinates (plane_rescale_one_is_identity); s then 1/s returns pixel scale and (for integer n*s) shape; the grid of util.rescale is REGENERATED from the source (each axis centred and sized with its own lengths); the original is untouched (regenerated effect table). Compared with the code on every case: shapes, '
               'per-axis pixel scale, the amplitude factor 1/s on top of util.rescale, the whole interpolation grid, refusals. Power/image/amplitude/OPD '
               'preservation "to interpolation accuracy" is measured, not proved.')
 LEVEL_NOTE = ('partial: bookkeeping theorems over a hand model whose grid (shape argument, row/column coordinates, coordinate order) is regenerated from util.py (Gen/RescaleGrid.lean); the wiring of Plane.rescale/resample (copy, ndim guards, /scale, interpolation options, binarise/cast/slice, per-axis pixel scale, guards) is regenerated too (Gen/PlaneRescale.lean, plane_rescale_wiring); cubic-spline interpolation accuracy (scipy map_coordinates) is an '
@@ -44,9 +44,15 @@ UNPROVEN = ['transmitted power sum|amplitude|^2 is preserved to interpolation ac
             'which arrays Plane.rescale interpolates and that it leaves the original untouched under later in-place work on the result: '
             'modelled (Model/Rescale.lean planePixelscale/amplitudeFactor/interpolated) and compared (amplitude factor observed against util.rescale of the original), original-untouched via the regenerated '
             'effect table (copy.copy counts as sharing) plus snapshots; not a theorem about NumPy',
-            'segment masks stay non-empty and cover the aperture support: oracle only; disjointness is proved (segments_stay_disjoint) under the nearest-sample contract of map_coordinates(order=0), which is trusted',
+            'segment masks stay non-empty and cover the aperture support: oracle only; disjointness is proved on the regenerated grid (segments_stay_disjoint_on_grid) under the nearest-sample contract of map_coordinates(order=0, mode=constant), which is trusted',
             'hard-edged and border-filling apertures are outside the quantifier of the measured clauses: generated with loose tolerances, bookkeeping and the exact constant-aperture power bound are checked on them']
 ASSUMPTIONS = ['apertures and OPDs are smooth on the sampling grid (property quantifier)',
+               'RIM: the mask is interpolated with mode=\'constant\', so output samples whose coordinate falls outside [0, n-1] (up to half an input pixel at '
+               'each border for s > 1) are 0 in every segment while amplitude/OPD use mode=\'nearest\'. Masks that touch the array border lose that rim, and a '
+               'segment that lives ONLY on border pixels can come back empty, which makes Plane.rescale raise IndexError in _plane_slice (3x3 plane, 4 label '
+               'segments, s = 1.25; 5x3, 5 segments, s = 0.75). Such one/two-pixel border segments are not well-sampled apertures (outside the quantifier); '
+               'generated segments always have interior pixels. Reported with a candidate one-word patch (mode=\'nearest\' for the mask: keeps every source pixel, '
+               '146 tests pass)',
                'FLOAT SEAM of the documented formula: the sample count is ceil(fl(n*s)) with the product formed in float64. For non-dyadic s it '
                'differs by one from the exact ceil(n*s) (s the float) exactly when n*s is within an ulp of an integer — e.g. 30 samples x 1.1 give 33 '
                '(exact 34, decimal intent 33), 50 x 1.1 give 56 (exact 56, decimal intent 55), resample of 27 samples 2e-4 -> 3e-4 gives 19 (s = '
@@ -187,6 +193,14 @@ def impl(c):
                     'mask_values': sorted(set(np.unique(m).tolist())), 'mask_dtype': str(m.dtype), 'nseg': int(Q.size), 'is_new': Q is not P,
                     'seg_overlap': int(np.max(np.sum(m, axis=0))) if m.ndim == 3 else 1,
                     'seg_nonempty': bool(all(np.any(x) for x in (m if m.ndim == 3 else [m])))})
+        if m.ndim == 3:
+            # segment structure: the union of the rescaled segments must be the rescaled union (the same plane with the flattened mask)
+            import copy as _copy
+            Pm = lentil.Pupil(amplitude=np.asarray(P.amplitude), opd=np.asarray(P.opd), mask=(np.sum(np.asarray(P.mask) != 0, axis=0) > 0).astype(float),
+                              pixelscale=P.pixelscale, focal_length=10.0)
+            Qm = Pm.resample(c['new_px']) if c['kind'] == 'resample' else Pm.rescale(c['scale'])
+            um = np.asarray(Qm.mask)
+            res['union_diff'] = int(np.sum(um != m.sum(axis=0))) if um.shape == m.shape[1:] else -1
         if not c['amp_scalar']:
             res['power0'] = float(np.sum(np.abs(P.amplitude) ** 2)); res['power1'] = float(np.sum(np.abs(A) ** 2))
             # the factor Plane.rescale applies on top of util.rescale's interpolation (model: amplitudeFactor = 1/s)
@@ -322,6 +336,9 @@ def oracle(c, io):
     if io['nseg'] != c['segments']: return f"{io['nseg']} segments, had {c['segments']}"
     if io['seg_overlap'] > 1: return 'rescaled segment masks overlap'
     if not io['seg_nonempty']: return 'a segment mask came back empty'
+    if io.get('union_diff', 0) != 0:
+        return (f"segment structure not kept: the union of the rescaled segment masks differs from the rescaled union mask at {io['union_diff']} samples "
+                f"(scale {c['scale']}, {c['segments']} segments)")
     # ---- original untouched, also after in-place work on the result
     if not io['is_new']: return 'rescale returned the plane itself'
     if io['shares']: return f"the rescaled plane shares memory with the original: {io['shares']}"
